@@ -665,6 +665,8 @@ def evaluate__idiv_operator(self: XPathToken, context: ta.ContextType = None) ->
         raise self.error('FOAR0001') from None
     except OverflowError as err:
         raise self.error('FOAR0002', err) from None
+    except TypeError as err:
+        raise self.error('XPTY0004', err) from None
 
 
 # Resolve the intrinsic ambiguity of some infix operators
